@@ -41,14 +41,14 @@ def _proc_cpu(pid):
         return None
 
 
-def measure(text, kind="plss"):
+def measure(text, kind="plss", config=""):
     """Return ('ok', cpu_seconds) | ('slow', cpu_seconds_so_far) | ('inconclusive', None) | ('error', message)."""
     global _worker
     if _worker is None or _worker.poll() is not None:
         _worker = _spawn()
     cpu_before = _proc_cpu(_worker.pid) or 0.0
     try:
-        _worker.stdin.write(json.dumps({"text": text, "kind": kind}) + "\n")
+        _worker.stdin.write(json.dumps({"text": text, "kind": kind, "config": config}) + "\n")
         _worker.stdin.flush()
     except Exception:
         _worker = None
@@ -103,10 +103,11 @@ def _worker_main():
         req = json.loads(line)
         t0 = time.process_time()
         try:
+            cfg = req.get("config") or None
             if req["kind"] == "tract":
-                pytrs.Tract(req["text"], parse_qq=True)
+                pytrs.Tract(req["text"], parse_qq=True, config=cfg)
             else:
-                pytrs.PLSSDesc(req["text"], parse_qq=True)
+                pytrs.PLSSDesc(req["text"], parse_qq=True, config=cfg)
             out = {"cpu": time.process_time() - t0}
         except Exception as exc:  # the timing property does not judge exceptions (C03 does)
             out = {"cpu": time.process_time() - t0, "exc": type(exc).__name__}
